@@ -201,7 +201,10 @@ theorem evalI_step {fuel : Nat} (ih : Spec fuel) : ∀ node st, Inv st → Post 
       intro r s' hIs' _ hr
       split
       · next e => exact Post.pure hIs' (hr.2 e rfl)
-      · next v => exact Post.pure hIs' (by simpa [OkO, newArray, okObj] using hr.1 v rfl)
+      · next v =>
+        refine Post.bind (post_derefList v hIs' (hr.1 v rfl)) ?_
+        rintro vs s'' hIs'' _ ⟨rfl, hvs⟩
+        exact Post.pure hIs'' (by simpa [OkO, newArray, okObj] using hvs)
     · -- map literal
       refine Post.bind_read (runM_get s0) ?_
       exact ih.evalMapLiteral _ _ _ _ _ hI0 (by simp [okPairs])
@@ -424,7 +427,9 @@ theorem evalBuiltin_step {fuel : Nat} (ih : Spec fuel) : ∀ t ps st, Inv st →
   have h2 : Post (jp2 ()) st OkO := by
     unfold jp2
     refine Post.bind (ih.evalI _ _ hI) ?_
-    intro val s hIs _ hval
+    intro val0 s hIs _ hval0
+    refine Post.bind (post_valueOf hIs hval0) ?_
+    rintro val s hIs _ ⟨rfl, hval, _⟩
     refine Post.ite (fun _ => Post.pure hIs hval) (fun _ => ?_)
     split
     · split
@@ -569,13 +574,17 @@ theorem evalMapLiteral_step {fuel : Nat} (ih : Spec fuel) : ∀ ks vs big acc st
   · next hf =>
     cases hf
     refine Post.bind (ih.eval _ _ hI) ?_
-    intro key s hIs hle hkey
+    intro key0 s hIs hle hkey0
+    refine Post.bind (post_valueOf hIs hkey0) ?_
+    rintro key s hIs _ ⟨rfl, hkey, _⟩
     refine Post.ite (fun _ => Post.pure hIs hkey) (fun _ => ?_)
     refine Post.bind (post_equalsM hIs hkey hkey) ?_
     rintro eq s' hIs' _ rfl
     refine Post.ite (fun _ => Post.pure hIs' okObj_err) (fun _ => ?_)
     refine Post.bind (ih.eval _ _ hIs') ?_
-    intro value s2 hIs2 hle2 hval
+    intro value0 s2 hIs2 hle2 hval0
+    refine Post.bind (post_valueOf hIs2 hval0) ?_
+    rintro value s2 hIs2 _ ⟨rfl, hval, _⟩
     refine Post.ite (fun _ => Post.pure hIs2 hval) (fun _ => ?_)
     refine Post.bind_read (runM_get s2) ?_
     have hacc2 : okPairs s2.frames.size _ = true :=
